@@ -72,6 +72,7 @@ func c07Parents() []c07Parent {
 		{"chain", []typeDef{{Name: "@p", Text: "{ // {allOf: \"@q\"}\n  \"m\": 5\n}"}, {Name: "@q", Text: `{"z": true}`}}, `"m":5,"z":true`, `"z"`},
 		{"optional member", []typeDef{{Name: "@p", Text: "{\n  \"a\": 3,\n  \"o\": 4 // {optional: true}\n}"}}, `"a":3,"o":4`, `"o"`},
 		{"nested object member", []typeDef{{Name: "@p", Text: "{\n  \"n\": {\n    \"d\": [1]\n  }\n}"}}, `"n":{"d":[1]}`, `"n"`},
+		{"member typed by an inheriting type", []typeDef{{Name: "@p", Text: `{"x": @q}`}, {Name: "@q", Text: "{ // {allOf: \"@r\"}\n  \"q\": 1\n}"}, {Name: "@r", Text: `{"r": 2}`}}, `"x":{"q":1,"r":2}`, `"x"`},
 	}
 }
 
@@ -149,7 +150,8 @@ func c07ExtraRun(r *mon.Run) {
 					wantRefused, why = true, "@p2 inherits from @p and @p is listed as well, so the members of @p arrive twice"
 				}
 				root, extra := pl.root(heir)
-				p := project{Root: root, Types: append(types, extra...)}
+				// every second case: the tables of the types hold objects of their own for the other types
+				p := project{Root: root, Types: append(types, extra...), OwnTables: idx%2 == 0}
 				want := pl.example(wantEx)
 				key := fmt.Sprintf("placement %q, parent %q, variant %d", pl.name, par.name, variant)
 				cs := map[string]any{"kind": "placement", "project": p}
